@@ -117,7 +117,10 @@ def run(ctx):
     for tok in base:
         one_per_variant.setdefault(int(tok.split(":")[0]), tok)
     nconv = 0
-    for tok in base[:: (7 if ctx.tier == "quick" else 1)] + list(one_per_variant.values()):
+    # string payloads with NULs (also trailing ones), empty, multi-byte
+    svi = vix["LiteralString"]
+    strings = [f"{svi}:S{x.encode().hex()}" if x else f"{svi}:S-" for x in ("", "\0", "abc\0", "a\0b", "x\0\0", "\0x", "é\0", "日本", " ", "a b\n\"q\"\\")]
+    for tok in base[:: (7 if ctx.tier == "quick" else 1)] + list(one_per_variant.values()) + strings:
         reqs.append("conv " + tok); nconv += 1
     unw = T["operand_reflect"]["unwrap"]
     own = {vix[v]: j for j, (_, _, v) in enumerate(unw)}
